@@ -284,6 +284,53 @@ fn keyapi_job(ctx: &Ctx, s: &dyn SuiteOps) -> (u64, Vec<Found>, Vec<u64>) {
             }
         }
     }
+    // a server setup whose external key container serializes to 200 bytes (longer than two
+    // scalars): its decoder is handed the stored form of such a setup, a directly-held setup's
+    // bytes, and strings of every length around both
+    if let Ok(wide) = s.key_api(5, &sk) {
+        let mut inputs: Vec<(String, Vec<u8>)> = vec![("wide_valid".into(), wide.clone()), ("direct_setup".into(), setup.clone())];
+        for base in [&wide, setup] {
+            for d in -3i64..=3 {
+                let len = (base.len() as i64 + d).max(0) as usize;
+                let mut b = base.clone();
+                b.resize(len, 0xA5);
+                inputs.push(("wide_length".into(), b));
+                inputs.push(("wide_random_length".into(), g.bytes(len)));
+            }
+        }
+        for len in [0usize, 1, l.nh, l.nh + l.nsk, l.nh + 200, 2 * wide.len()] {
+            inputs.push(("wide_random_length".into(), g.bytes(len)));
+        }
+        for _ in 0..ctx.pick(100, 2000) {
+            let mut b = wide.clone();
+            let o = g.below(b.len());
+            b[o] ^= 1 << g.below(8);
+            inputs.push(("wide_bitflip".into(), b));
+        }
+        for (class, b) in inputs {
+            n += 1;
+            let r = s.key_api(4, &b);
+            if class == "wide_valid" && std::env::var("VERIF_DEBUG").is_ok() {
+                eprintln!("debug: {} wide_valid ({} bytes) -> {:?}", s.name(), b.len(), r.as_ref().map(|x| x.len()).map_err(|f| f.short()));
+            }
+            shapes.push(fnv(format!("{}|keyapi4|{}|{}", s.name(), class, r.is_ok()).as_bytes()));
+            if let Err(f) = &r {
+                if f.is_panic() {
+                    let p = f.short();
+                    let loc = p.split(" @ ").last().unwrap_or("?").trim_end_matches("\")@Op").to_string();
+                    let sig = format!("panic:keyapi4:{}", loc);
+                    if !found.iter().any(|x: &Found| x.signature == sig) {
+                        found.push(Found {
+                            clause: "panic".into(),
+                            detail: format!("{}: ServerSetup::<_, 200-byte key container>::deserialize on a {}-byte input [{}]: {}", s.name(), b.len(), class, p),
+                            signature: sig,
+                            case: Case::Custom { mode: "keyapi".into(), params: json!({"suite": s.name(), "which": 4, "bytes": hex::encode(&b)}) },
+                        });
+                    }
+                }
+            }
+        }
+    }
     (n, found, shapes)
 }
 
